@@ -925,18 +925,22 @@ class Kit:
             decls = [d for d in astx.find_decls(src, name, 'VarDecl', name) if d.get('inner')]
             if len({d['id'] for d in decls}) != 1:
                 raise astx.ExtractError('table %s: %d definitions found' % (name, len({d['id'] for d in decls})))
-            lits = []
+            lits = None
 
             def walk(x):
-                if x.get('kind') == 'StringLiteral':
-                    lits.append(find_string(x))
+                """the initialiser list with exactly n entries: each entry is a string literal or an empty view `{}`"""
+                nonlocal lits
+                if lits is not None:
                     return
-                for c in x.get('inner', []):
-                    if isinstance(c, dict):
-                        walk(c)
+                kids = [c for c in x.get('inner', []) if isinstance(c, dict)]
+                if x.get('kind') == 'InitListExpr' and len(kids) == n and re.search(r'QStringView\s*\[%d\]' % n, qt(x) + ' ' + dqt(x)):
+                    lits = [find_string(c) or '' for c in kids]
+                    return
+                for c in kids:
+                    walk(c)
             walk(decls[0])
-            if len(lits) != n:
-                raise Unsupported('table %s: %d string literals for %d entries' % (name, len(lits), n))
+            if lits is None or len(lits) != n:
+                raise Unsupported('table %s: no initialiser list of %d string views found' % (name, n))
             out.append('static const qstr %s[%d] = { %s };' % (name, n, ', '.join(self.prof.literal_ids.cexpr(s) for s in lits)))
         return '\n'.join(out) + '\n'
 
@@ -1013,6 +1017,11 @@ def _parse_stmt(lines, i):
             else:
                 n.els, i = _parse_block(lines, i + 1)
         return n, i
+    if st.startswith('switch (') and i + 1 < len(lines) and lines[i + 1] == ind + '{':
+        n = _Node('switch', l)
+        n.indent = ind
+        n.then, i = _parse_block(lines, i + 1)
+        return n, i
     if re.match(r'(for|while|switch) \(', st) or st == 'else':
         raise Unsupported('id padding: construct not handled: ' + st[:40])
     return _Node('stmt', l), i + 1
@@ -1036,6 +1045,32 @@ def _count(node, M):
         return n
     if node.kind == 'block':
         return sum(_count(x, M) for x in node.items)
+    if node.kind == 'switch':
+        # segments between case labels, each ending in `break;` (no fall-through), with a default label: pad each to the maximum
+        segs, cur, has_default = [], None, False
+        for it in node.then.items:
+            lab = it.kind == 'stmt' and re.fullmatch(r'\s*(case .*|default):', it.line)
+            if lab:
+                has_default = has_default or it.line.strip() == 'default:'
+                if cur is not None and cur and not (cur[-1].kind == 'stmt' and cur[-1].line.strip() == 'break;'):
+                    raise Unsupported('id padding: switch case falls through')
+                if cur is None or cur:
+                    cur = []
+                    segs.append(cur)
+            else:
+                if cur is None:
+                    raise Unsupported('id padding: statement before the first case label')
+                cur.append(it)
+        if not has_default or not segs or any(not (sg and sg[-1].kind == 'stmt' and sg[-1].line.strip() == 'break;') for sg in segs):
+            raise Unsupported('id padding: switch without default or without break')
+        counts = [sum(_count(x, M) for x in sg) for sg in segs]
+        m = max(counts)
+        for sg, c in zip(segs, counts):
+            if c < m:
+                brk = sg[-1]
+                pad = _Node('stmt', brk.line[:len(brk.line) - len(brk.line.lstrip())] + 'xw_pad(%d);   /* ghost: id reservation */' % (m - c))
+                node.then.items.insert(next(k for k, z in enumerate(node.then.items) if z is brk), pad)
+        return m
     a = _count(node.then, M)
     b = _count(node.els, M) if node.els is not None else 0
     if node.line and re.search(r'\b(%s)\(' % '|'.join(list(CREATORS) + [f for f in M]), node.line):
@@ -1067,6 +1102,9 @@ def _emit(node, out):
         for x in node.items:
             _emit(x, out)
         out.append(node.indent + '}')
+    elif node.kind == 'switch':
+        out.append(node.line)
+        _emit(node.then, out)
     else:
         out.append(node.line)
         _emit(node.then, out)
